@@ -42,7 +42,8 @@ def brute_models(clauses, assumptions, n_vars):
     return out
 
 
-def has_model(clauses, assumptions):
+def has_model(clauses, assumptions, z3_timeout_ms=None):
+    """True / False; None when z3 gives up within z3_timeout_ms (only possible when a timeout is given)"""
     n = max([abs(l) for c in clauses for l in c] + [abs(a) for a in assumptions] + [0])
     if n <= 14:
         # early exit search
@@ -53,6 +54,8 @@ def has_model(clauses, assumptions):
         return False
     import z3  # trusted for larger instances
     s = z3.Solver()
+    if z3_timeout_ms:
+        s.set("timeout", int(z3_timeout_ms))
     bs = {}
 
     def b(v):
@@ -64,36 +67,66 @@ def has_model(clauses, assumptions):
         s.add(z3.Or(*[b(abs(l)) if l > 0 else z3.Not(b(abs(l))) for l in c]) if c else z3.BoolVal(False))
     for a in assumptions:
         s.add(b(abs(a)) if a > 0 else z3.Not(b(abs(a))))
-    return s.check() == z3.sat
+    r = s.check()
+    if r == z3.sat:
+        return True
+    if r == z3.unsat:
+        return False
+    return None
+
+
+def is_model(clauses, assumptions, s):
+    """direct evaluation of the constraint semantics: a variable without a value makes a literal 'not true'"""
+    return (isinstance(s, dict) and all(s.get(abs(a)) == (a > 0) for a in assumptions)
+            and all(any(s.get(abs(l)) == (l > 0) for l in c) for c in clauses))
 
 
 # ------------------------------------------------------------------ contract
-def evaluate(case, timeout_s=6):
-    """case = dict(clauses, assumptions, solution_limit, luby_factor, max_conflicts, max_restarts)
-    returns (violations: list[(obligation, detail)], info)"""
-    use_repo()
+def _short(x, n=300):
+    t = str(x)
+    return t if len(t) <= n else t[:n] + f"...({len(t)} chars)"
+
+
+class _Guard:
+    """per-call hang guard on CPU time of this process (a wall-clock alarm fires spuriously on a loaded box)"""
+
+    def __init__(self, seconds):
+        self.seconds = seconds
+
+    def __enter__(self):
+        signal.signal(signal.SIGVTALRM, _alarm)
+        signal.setitimer(signal.ITIMER_VIRTUAL, self.seconds)
+
+    def __exit__(self, *a):
+        signal.setitimer(signal.ITIMER_VIRTUAL, 0)
+        return False
+
+
+def call_solver(clauses, assumptions, kw, timeout_s, copy=True):
+    """returns (res, violations). copy=False hands the very objects over (history mode)."""
     from solvor.sat import solve_sat
-    from solvor.types import Status
-    clauses = [list(c) for c in case["clauses"]]
-    assumptions = list(case.get("assumptions") or [])
-    kw = {}
-    for k in ("solution_limit", "luby_factor", "max_conflicts", "max_restarts"):
-        if case.get(k) is not None:
-            kw[k] = case[k]
     viol = []
-    signal.signal(signal.SIGALRM, _alarm)
-    signal.alarm(timeout_s)
+    res = None
     try:
-        res = solve_sat([list(c) for c in clauses], assumptions=list(assumptions) or None, **kw)
+        with _Guard(timeout_s):
+            if copy:
+                res = solve_sat([list(c) for c in clauses], assumptions=list(assumptions) or None, **kw)
+            else:
+                res = solve_sat(clauses, assumptions=assumptions, **kw)
     except Hang:
-        viol.append(("C02/solve_sat/ensures:returns-within-budget", f"no return within {timeout_s}s (budgets {kw})"))
-        return viol, {"hang": True}
+        viol.append(("C02/solve_sat/ensures:returns-within-budget", f"no return within {timeout_s}s of CPU time (budgets {kw})"))
     except Exception as e:  # noqa
-        signal.alarm(0)
         viol.append(("C02/solve_sat/ensures:returns-a-status", f"raised {e!r}"))
-        return viol, {"raised": True}
-    finally:
-        signal.alarm(0)
+    return res, viol
+
+
+def judge(clauses, assumptions, case, res, witness=None, z3_timeout_ms=None):
+    """the top-level contract of solve_sat on one answer. case supplies solution_limit / budget_generous / small.
+    Oracle for `a model exists`: (1) a planted witness, checked here by direct evaluation; (2) any returned assignment
+    that passes direct evaluation (a certificate); (3) brute force <= 14 variables; (4) z3 (with a time limit on big
+    instances; when it gives up the verdict clauses are not judged and info['oracle_undecided'] is set)."""
+    from solvor.types import Status
+    viol = []
     status = res.status
     info = {"status": status.name, "iterations": res.iterations, "evaluations": res.evaluations}
     if status not in (Status.OPTIMAL, Status.INFEASIBLE, Status.MAX_ITER):
@@ -104,59 +137,119 @@ def evaluate(case, timeout_s=6):
     if res.solutions is not None:
         for i, s in enumerate(res.solutions):
             sols.append((f"solutions[{i}]", s))
-    sat = has_model(clauses, assumptions) if clauses else True
+    n_vars = max([abs(l) for c in clauses for l in c] + [0])
     # C01: every returned assignment is a model and agrees with the assumptions
+    certified = False
+    n_bad = 0
     for name, s in sols:
         if not isinstance(s, dict):
             viol.append(("C01/solve_sat/ensures:assignment-shape", f"{name} is {type(s).__name__}"))
             continue
+        good = True
         for c in clauses:
             if not any(s.get(abs(l)) == (l > 0) for l in c):
-                viol.append(("C01/solve_sat/ensures:every-clause-true", f"{name}={s} falsifies clause {c}"))
+                good = False
+                n_bad += 1
+                if n_bad <= 3:
+                    viol.append(("C01/solve_sat/ensures:every-clause-true",
+                                 f"{name}={_short(s, 160)} ({len(s)} of {n_vars} variables have a value) falsifies clause {_short(c, 120)}"))
                 break
         for a in assumptions:
             if abs(a) in s and s[abs(a)] != (a > 0):
-                viol.append(("C01/solve_sat/ensures:agrees-with-assumptions", f"{name}={s} contradicts assumption {a}"))
+                good = False
+                viol.append(("C01/solve_sat/ensures:agrees-with-assumptions", f"{name}={_short(s, 160)} contradicts assumption {a}"))
                 break
             if abs(a) not in s and clauses:
                 # an assumed variable absent from the model: the model does not say the assumption holds
-                n_vars = max(abs(l) for c in clauses for l in c) if any(clauses) else 0
                 if abs(a) <= n_vars:
-                    viol.append(("C01/solve_sat/ensures:agrees-with-assumptions", f"{name}={s} leaves assumed variable {abs(a)} unassigned"))
+                    good = False
+                    viol.append(("C01/solve_sat/ensures:agrees-with-assumptions", f"{name}={_short(s, 160)} leaves assumed variable {abs(a)} unassigned"))
                     break
+        if good and clauses and is_model(clauses, assumptions, s):
+            certified = True
     if res.solutions is not None:
         seen = set()
         for i, s in enumerate(res.solutions):
             key = tuple(sorted(s.items())) if isinstance(s, dict) else repr(s)
             if key in seen:
-                viol.append(("C01/solve_sat/ensures:solutions-pairwise-distinct", f"solutions[{i}]={s} repeated"))
+                viol.append(("C01/solve_sat/ensures:solutions-pairwise-distinct",
+                             f"solutions[{i}]={_short(s, 160)} repeated ({len(res.solutions)} entries, "
+                             f"{len({tuple(sorted(t.items())) if isinstance(t, dict) else repr(t) for t in res.solutions})} distinct)"))
                 break
             seen.add(key)
         if case.get("solution_limit") and len(res.solutions) > case["solution_limit"]:
             viol.append(("C01/solve_sat/ensures:solutions-pairwise-distinct", f"{len(res.solutions)} solutions for limit {case['solution_limit']}"))
+        if case.get("n_models") is not None and len(res.solutions) > case["n_models"]:
+            viol.append(("C01/solve_sat/ensures:solutions-pairwise-distinct",
+                         f"{len(res.solutions)} solutions returned, the formula has {case['n_models']} models (counted by brute force)"))
+    # oracle: does a model exist?
+    if not clauses:
+        sat = True
+    elif witness is not None:
+        wd = {abs(l): l > 0 for l in witness}
+        if not is_model(clauses, assumptions, wd):
+            raise AssertionError("checker defect: the planted witness is not a model of the generated formula")
+        sat = True
+        info["oracle"] = "planted-witness"
+    elif certified:
+        sat = True
+        info["oracle"] = "returned-model-evaluated"
+    else:
+        sat = has_model(clauses, assumptions, z3_timeout_ms)
+        info["oracle"] = "brute-force" if n_vars <= 14 else "z3"
+        if sat is None:
+            info["oracle_undecided"] = True
     # C02: verdicts
-    if status == Status.INFEASIBLE and sat:
-        viol.append(("C02/solve_sat/ensures:INFEASIBLE-only-if-no-model", "INFEASIBLE but a model exists"))
+    if status == Status.INFEASIBLE and sat is True:
+        viol.append(("C02/solve_sat/ensures:INFEASIBLE-only-if-no-model",
+                     "INFEASIBLE but a model exists" + (" (planted witness, checked by direct evaluation)" if witness is not None else "")))
     if status == Status.INFEASIBLE and res.solution is not None:
         viol.append(("C02/solve_sat/ensures:INFEASIBLE-only-if-no-model", "INFEASIBLE with a solution attached"))
     if status == Status.OPTIMAL and res.solution is None:
         viol.append(("C02/solve_sat/ensures:model-whenever-one-exists", "OPTIMAL without a solution"))
-    if status == Status.OPTIMAL and not sat:
+    if status == Status.OPTIMAL and sat is False:
         viol.append(("C02/solve_sat/ensures:no-model-for-unsat", "OPTIMAL on an unsatisfiable formula"))
-    if sat and status != Status.OPTIMAL and case.get("budget_generous", True):
+    if sat is True and status != Status.OPTIMAL and case.get("budget_generous", True):
         viol.append(("C02/solve_sat/ensures:model-whenever-one-exists",
                      f"a model exists, budgets are not exhausted (generous), status {status.name}"))
-    if not sat and status == Status.MAX_ITER and case.get("budget_generous", True) and case.get("small", True):
+    if sat is False and status == Status.MAX_ITER and case.get("budget_generous", True) and case.get("small", True):
         viol.append(("C02/solve_sat/ensures:returns-within-budget", "MAX_ITER on a tiny unsatisfiable formula with default budgets"))
     info["sat"] = sat
     info["n_solutions"] = len(res.solutions) if res.solutions is not None else (1 if res.solution is not None else 0)
     return viol, info
 
 
+def solver_kw(case):
+    kw = {}
+    for k in ("solution_limit", "luby_factor", "max_conflicts", "max_restarts"):
+        if case.get(k) is not None:
+            kw[k] = case[k]
+    return kw
+
+
+def evaluate(case, timeout_s=6):
+    """case = dict(clauses | gen, assumptions, solution_limit, luby_factor, max_conflicts, max_restarts) or a history case
+    returns (violations: list[(obligation, detail)], info)"""
+    use_repo()
+    if "history" in case:
+        return evaluate_history(case)
+    case = materialize(case)
+    clauses = [list(c) for c in case["clauses"]]
+    assumptions = list(case.get("assumptions") or [])
+    kw = solver_kw(case)
+    res, viol = call_solver(clauses, assumptions, kw, timeout_s)
+    if res is None:
+        return viol, {"hang": True} if viol and "within" in viol[0][0] else {"raised": True}
+    v2, info = judge(clauses, assumptions, case, res, witness=case.get("witness"), z3_timeout_ms=case.get("z3_timeout_ms"))
+    return viol + v2, info
+
+
 def eval_chunk(cases):
     out = []
     for c in cases:
         v, info = evaluate(c, c.get("timeout_s", 6))
+        if "gen" in c and v:
+            c = materialize(c)  # a violation carries the concrete formula (and the planted witness)
         out.append((c, v, info))
     return out
 
@@ -274,6 +367,688 @@ def guarded_php(p, closing):
     return cl
 
 
+ROUND2_RULE = (
+    "size ladder: recipes (implication chains hanging on one decision, clauses of N+1 literals with cascading back-jumps and "
+    "their random relatives, hidden-model 2-/3-SAT, xor chains, ladder- and order-encoded CSPs / schedules) at 10..2500 variables "
+    "in several variable numberings / polarities / random renamings x {default, luby_factor=1, solution_limit=3, assumptions "
+    "taken from the witness}, with unsatisfiable siblings certified by z3; long runs: hidden-model 3-SAT of 180-300 variables at "
+    "ratio 4.0-4.2 capped at 14000 (quick) / 40000 conflicts; enumerations of 2500-20000 models; budget ladder: every "
+    "max_conflicts 0..K x max_restarts on formulas needing tens of conflicts; history mode: one clause-list and one "
+    "assumption-list object reused over a sequence of calls with in-place edits between calls (block last model, append / "
+    "pop clause, overwrite literal, flip / swap variables, refill with another formula, change assumptions, starve budgets), "
+    "each answer judged against brute force on the input as it is at that call, and compared with the answer of a process "
+    "without call history (forked per call; a sample in newly started interpreters); ")
+
+# ------------------------------------------------------------------ round 2: size ladder with certifying oracles
+# Every generator returns (clauses, witness, expect): witness = list of signed literals (a total planted model) or None;
+# expect = "sat" (witness given), "unsat" (by construction; certified by z3 at evaluation time, never trusted) or None.
+# Cases carry only the recipe {"gen": [name, params]} (cheap to ship to the workers); materialize() builds the formula.
+GENERATORS = {}
+
+
+def generator(fn):
+    GENERATORS[fn.__name__] = fn
+    return fn
+
+
+def _number(blocks):
+    """blocks: list of lists of role names, in the order in which variable numbers are handed out"""
+    num = {}
+    for b in blocks:
+        for r in b:
+            num[r] = len(num) + 1
+    return num
+
+
+@generator
+def chain(K, order="head", pol="pos", taps=(1.0,), unsat=False):
+    """implication chain of K+2 literals hanging on ONE decision (d -> c1 -> ... -> cK -> v) whose far end (and optionally
+    inner nodes, `taps` = positions in (0,1]) clashes with a literal e that holds in every model (failed-literal forced,
+    not a unit); ordering / ladder / sequential-counter encodings produce such chains.  Model: chain false, e true.
+    order = which block gets the low variable numbers (= is decided first); pol = polarity of the chain variables."""
+    cs = [f"c{i}" for i in range(1, K + 1)]
+    gad = ["e", "a", "q"] + [f"z{t}" for t in range(len(taps))]
+    blocks = {"head": [["d"], cs, ["v"], gad], "tail": [["v"], cs[::-1], ["d"], gad],
+              "gadget": [gad, ["d"], cs, ["v"]], "gadget-tail": [gad, ["v"], cs[::-1], ["d"]]}[order]
+    num = _number(blocks)
+    nodes = ["d"] + cs + ["v"]
+    sign = {}
+    for i, r in enumerate(nodes):
+        sign[r] = 1 if pol == "pos" else -1 if pol == "neg" else (1 if i % 2 == 0 else -1)
+
+    def L(r, positive=True):  # literal "role r is on"
+        sg = sign.get(r, 1) * (1 if positive else -1)
+        return sg * num[r]
+
+    cl = [[L(nodes[i], False), L(nodes[i + 1])] for i in range(len(nodes) - 1)]
+    e, a, q = num["e"], num["a"], num["q"]
+    for t, frac in enumerate(taps):
+        u = nodes[max(1, min(len(nodes) - 1, int(round(frac * (len(nodes) - 1)))))]
+        z = num[f"z{t}"]
+        cl += [[-e, L(u, False), z], [-e, L(u, False), -z]]
+    cl += [[e, a], [e, -a], [L("d"), q]]
+    if unsat:
+        cl.append([L("d")])
+        return cl, None, "unsat"
+    wit = [L(r, False) for r in nodes] + [e, a, q] + [num[f"z{t}"] for t in range(len(taps))]
+    return cl, wit, "sat"
+
+
+@generator
+def wide(N, order="asc", pol="pos", unsat=False, depth=1):
+    """clauses of N+1 literals ("not all of x1..xN", twice, split on y) + `depth` further conflicts waiting on the levels the
+    solver jumps back to (x_(j-1) -> x_j for the last `depth` indices, each split on an auxiliary variable) + x_(N-depth)
+    forced by a failed literal; the learned clauses have N, N-1, ... literals.  Model: x1 false, the rest true.
+    Big at-least-one / cardinality constraints produce such clauses."""
+    xs = [f"x{i}" for i in range(1, N + 1)]
+    aux = ["y", "a"] + [f"z{j}" for j in range(depth)]
+    blocks = {"asc": [xs, aux], "desc": [xs[::-1], aux], "aux-first": [aux, xs], "last-two-first": [xs[-2:], xs[:-2], aux]}[order]
+    num = _number(blocks)
+    sg = 1 if pol == "pos" else -1
+    X = lambda i: sg * num[f"x{i}"]  # noqa: E731
+    y, a = num["y"], num["a"]
+    cl = [[-X(i) for i in range(1, N + 1)] + [y], [-X(i) for i in range(1, N + 1)] + [-y]]
+    for j in range(depth):
+        z = num[f"z{j}"]
+        cl += [[X(N - j), -X(N - j - 1), z], [X(N - j), -X(N - j - 1), -z]]
+    cl += [[X(N - depth), a], [X(N - depth), -a]]
+    cl += [[X(i), X(i + 1)] for i in range(1, N - depth)]
+    if unsat:
+        cl += [[X(i)] for i in range(1, N - depth)]
+        return cl, None, "unsat"
+    wit = [-X(1)] + [X(i) for i in range(2, N + 1)] + [y, a] + [num[f"z{j}"] for j in range(depth)]
+    return cl, wit, "sat"
+
+
+@generator
+def wide_random(N, seed, n_wide=3, n_small=None):
+    """random relative of `wide`: a few negative clauses over >= 70% of the variables (each twice, split on an auxiliary
+    variable), many random 2-3 literal clauses that the all-true assignment mostly satisfies; planted model = all true
+    except a few variables that hit every wide clause."""
+    rng = random.Random(f"wide_random-{N}-{seed}")
+    zeros = rng.sample(range(1, N + 1), rng.randint(1, 3))
+    val = {v: v not in zeros for v in range(1, N + 1)}
+    cl = []
+    nxt = N
+    for _ in range(n_wide):
+        S = set(rng.sample(range(1, N + 1), rng.randint(int(0.7 * N), N)))
+        S.add(rng.choice(zeros))
+        body = [-v for v in sorted(S)]
+        nxt += 1
+        val[nxt] = True
+        cl += [body + [nxt], body + [-nxt]]
+    for _ in range(n_small if n_small is not None else 2 * N):
+        k = rng.choice((2, 2, 3))
+        while True:
+            vs = rng.sample(range(1, N + 1), k)
+            c = [v if rng.random() < 0.6 else -v for v in vs]
+            if any(val[abs(l)] == (l > 0) for l in c):
+                break
+        cl.append(c)
+    rng.shuffle(cl)
+    return cl, [v if val[v] else -v for v in sorted(val)], "sat"
+
+
+@generator
+def planted_ksat(n, ratio, seed, k=3, hidden=2):
+    """random k-SAT with a hidden model; hidden=2 also keeps the complement a model (not-all-equal w.r.t. the hidden
+    assignment), which removes the statistical bias towards the hidden model - as hard as unplanted formulas of that ratio"""
+    rng = random.Random(f"planted_ksat-{n}-{ratio}-{seed}-{k}-{hidden}")
+    val = {v: rng.random() < 0.5 for v in range(1, n + 1)}
+    cl = []
+    while len(cl) < int(n * ratio):
+        c = [rng.choice((-1, 1)) * v for v in rng.sample(range(1, n + 1), k)]
+        t = sum(val[abs(l)] == (l > 0) for l in c)
+        if t == 0 or (hidden == 2 and t == k):
+            continue
+        cl.append(c)
+    return cl, [v if val[v] else -v for v in range(1, n + 1)], "sat"
+
+
+@generator
+def random_ksat(n, ratio, seed, k=3):
+    """unplanted random k-SAT; oracle = the returned model itself, or z3 (time-limited) for an INFEASIBLE claim"""
+    rng = random.Random(f"random_ksat-{n}-{ratio}-{seed}-{k}")
+    cl = [[rng.choice((-1, 1)) * v for v in rng.sample(range(1, n + 1), k)] for _ in range(int(n * ratio))]
+    return cl, None, None
+
+
+@generator
+def planted_2sat(n, ratio, seed):
+    """random 2-SAT with a hidden model: long binary-implication chains on one decision level, learned units"""
+    rng = random.Random(f"planted_2sat-{n}-{ratio}-{seed}")
+    val = {v: rng.random() < 0.5 for v in range(1, n + 1)}
+    cl = []
+    while len(cl) < int(n * ratio):
+        c = [rng.choice((-1, 1)) * v for v in rng.sample(range(1, n + 1), 2)]
+        if any(val[abs(l)] == (l > 0) for l in c):
+            cl.append(c)
+    return cl, [v if val[v] else -v for v in range(1, n + 1)], "sat"
+
+
+@generator
+def xor_chain(n, seed, unsat=False):
+    """x1 xor ... xor xn = b through Tseitin variables t_i = t_(i-1) xor x_i (4 ternary clauses each); 2n variables, random
+    numbering; b = the parity of a planted input.  unsat sibling: both parities demanded of the last Tseitin variable"""
+    rng = random.Random(f"xor_chain-{n}-{seed}")
+    val = {i: rng.random() < 0.5 for i in range(1, n + 1)}
+    order = list(range(1, 2 * n))
+    rng.shuffle(order)
+    x = {i: order[i - 1] for i in range(1, n + 1)}
+    t = {i: order[n + i - 2] for i in range(2, n + 1)}
+    cl = []
+    model = {x[i]: val[i] for i in val}
+    prev, pv = x[1], val[1]
+    for i in range(2, n + 1):
+        a, b, c = prev, x[i], t[i]
+        cl += [[-a, -b, -c], [a, b, -c], [a, -b, c], [-a, b, c]]
+        pv = pv != val[i]
+        model[c] = pv
+        prev = c
+    if unsat:
+        h = 2 * n
+        cl += [[prev, h], [prev, -h], [-prev, h], [-prev, -h]]
+        return cl, None, "unsat"
+    h = 2 * n  # the demanded parity, stated through a split on h instead of a unit clause
+    P = prev if pv else -prev
+    cl += [[P, h], [P, -h]]
+    model[h] = True
+    return cl, [v if model[v] else -v for v in sorted(model)], "sat"
+
+
+@generator
+def ladder_csp(P, N, seed, density=0.02):
+    """P integer variables over N values, each `exactly one` through a sequential-counter ladder (s_j = some value <= j
+    chosen; chains of N implied literals per decision), pairwise different, plus random forbidden value pairs that spare the
+    planted solution"""
+    rng = random.Random(f"ladder_csp-{P}-{N}-{seed}")
+    X = lambda g, j: g * 2 * N + j + 1  # noqa: E731
+    S = lambda g, j: g * 2 * N + N + j + 1  # noqa: E731
+    plant = rng.sample(range(N), P)
+    cl = []
+    for g in range(P):
+        cl.append([X(g, j) for j in range(N)])
+        for j in range(N):
+            cl.append([-X(g, j), S(g, j)])
+            if j:
+                cl.append([-S(g, j - 1), S(g, j)])
+                cl.append([-X(g, j), -S(g, j - 1)])
+    for g in range(P):
+        for h in range(g + 1, P):
+            for j in range(N):
+                cl.append([-X(g, j), -X(h, j)])
+            for _ in range(int(density * N * N)):
+                a, b = rng.randrange(N), rng.randrange(N)
+                if (a, b) != (plant[g], plant[h]):
+                    cl.append([-X(g, a), -X(h, b)])
+    wit = []
+    for g in range(P):
+        for j in range(N):
+            wit.append(X(g, j) if j == plant[g] else -X(g, j))
+            wit.append(S(g, j) if j >= plant[g] else -S(g, j))
+    return cl, wit, "sat"
+
+
+@generator
+def order_sched(J, H, seed, slack=0):
+    """J tasks on one machine inside a horizon H, start times in the order encoding (o[j,t] = `s_j >= t`, ladders of up to H
+    implied literals per decision), one selector per pair of tasks (j before k, or k before j: ternary clauses over the
+    ladders); planted schedule = a random order packed left to right; slack 0 leaves no idle time"""
+    rng = random.Random(f"order_sched-{J}-{H}-{seed}")
+    cuts = sorted(rng.sample(range(1, H - slack), J - 1))
+    bounds = [0] + cuts + [H - slack]
+    perm = list(range(J))
+    rng.shuffle(perm)
+    start, dur = {}, {}
+    for pos, j in enumerate(perm):
+        start[j], dur[j] = bounds[pos], bounds[pos + 1] - bounds[pos]
+    nv = 0
+    O = {}
+    for j in range(J):
+        for t in range(1, H - dur[j] + 1):
+            nv += 1
+            O[j, t] = nv
+
+    def ge(j, t):  # the literal `s_j >= t`, or a constant
+        if t <= 0:
+            return True
+        if t > H - dur[j]:
+            return False
+        return O[j, t]
+
+    cl = []
+    for j in range(J):
+        for t in range(2, H - dur[j] + 1):
+            cl.append([-O[j, t], O[j, t - 1]])
+    wit = {v: start[j] >= t for (j, t), v in O.items()}
+
+    def before(b, j, k):  # b -> s_k >= s_j + dur_j, i.e. for all t: s_j >= t -> s_k >= t + dur_j
+        for t in range(0, H - dur[j] + 1):
+            a, c = ge(j, t), ge(k, t + dur[j])
+            if c is True or a is False:
+                continue
+            cl.append([b] + ([-a] if a is not True else []) + ([c] if c is not False else []))
+
+    for j in range(J):
+        for k in range(j + 1, J):
+            nv += 1
+            before(-nv, j, k)
+            before(nv, k, j)
+            wit[nv] = start[j] < start[k]
+    return cl, [v if wit[v] else -v for v in sorted(wit)], "sat"
+
+
+@generator
+def free_vars(k, extra=0, seed=0):
+    """k unconstrained variables (tautological ternary clauses) -> exactly 2^k models; `extra` random ternary clauses on top
+    (then the model count comes from brute force)"""
+    rng = random.Random(f"free_vars-{k}-{extra}-{seed}")
+    cl = [[i, -i, i % k + 1] for i in range(1, k + 1)]
+    cl += [[rng.choice((-1, 1)) * v for v in rng.sample(range(1, k + 1), 3)] for _ in range(extra)]
+    return cl, None, None
+
+
+@generator
+def loose_ksat(n, ratio, seed, k=3):
+    """under-constrained planted random k-SAT (ratio 1.5-3): astronomically many models, enumeration by the thousand"""
+    return planted_ksat(n, ratio, f"loose-{seed}", k=k, hidden=1)
+
+
+def rename(clauses, witness, seed):
+    """random renumbering of the variables + random polarity flips + clause / literal shuffles (preserves satisfiability;
+    the witness is mapped along).  The solver decides low numbers first, value True first, so this changes the search."""
+    rng = random.Random(f"rename-{seed}")
+    n = max([abs(l) for c in clauses for l in c] + [0])
+    perm = list(range(1, n + 1))
+    rng.shuffle(perm)
+    flip = [1] + [rng.choice((1, -1)) for _ in range(n)]
+    m = lambda l: perm[abs(l) - 1] * flip[abs(l)] * (1 if l > 0 else -1)  # noqa: E731
+    out = [[m(l) for l in c] for c in clauses]
+    for c in out:
+        rng.shuffle(c)
+    rng.shuffle(out)
+    return out, ([m(l) for l in witness] if witness is not None else None)
+
+
+def materialize(case):
+    if "clauses" in case:
+        return case
+    name, params = case["gen"]
+    clauses, witness, expect = GENERATORS[name](**params)
+    if case.get("rename") is not None:
+        clauses, witness = rename(clauses, witness, case["rename"])
+    c = dict(case)
+    c["clauses"] = clauses
+    if witness is not None:
+        c["witness"] = witness
+    c["expect"] = expect
+    k = case.get("assume_from_witness")
+    if k:
+        if witness is None:
+            raise AssertionError("checker defect: assume_from_witness without a witness")
+        rng = random.Random(f"assume-{case['gen']}-{k}")
+        c["assumptions"] = rng.sample(witness, min(k, len(witness)))
+    return c
+
+
+def count_models(clauses, n_vars):
+    return len(brute_models(clauses, [], n_vars))
+
+
+# ------------------------------------------------------------------ round 2: history mode
+def _res_digest(res):
+    def canon(s):
+        return sorted(s.items()) if isinstance(s, dict) else repr(s)
+    return [res.status.name, canon(res.solution) if res.solution is not None else None,
+            [canon(s) for s in res.solutions] if res.solutions is not None else None]
+
+
+def apply_edit(cl, assum, edit, last_model):
+    """in-place edits of the caller's objects between two calls (the list objects keep their identity)"""
+    op = edit[0]
+    if op == "none":
+        pass
+    elif op == "append_clause":
+        cl.append(list(edit[1]))
+    elif op == "pop_clause":
+        if len(cl) > 1:
+            cl.pop()
+    elif op == "block_last_model":
+        if last_model:
+            cl.append([(-v if val else v) for v, val in sorted(last_model.items())])
+    elif op == "set_assumptions":
+        assum[:] = list(edit[1])
+    elif op == "reverse":
+        cl.reverse()
+        for c in cl:
+            c.reverse()
+    elif op == "flip_var":  # relabel: x_v <-> not x_v everywhere, in place
+        v = edit[1]
+        for c in cl:
+            for i, l in enumerate(c):
+                if abs(l) == v:
+                    c[i] = -l
+        for i, l in enumerate(assum):
+            if abs(l) == v:
+                assum[i] = -l
+    elif op == "swap_vars":  # relabel: exchange the names of two variables, in place
+        a, b = edit[1], edit[2]
+        sw = {a: b, b: a}
+        for c in cl:
+            for i, l in enumerate(c):
+                if abs(l) in sw:
+                    c[i] = sw[abs(l)] * (1 if l > 0 else -1)
+        for i, l in enumerate(assum):
+            if abs(l) in sw:
+                assum[i] = sw[abs(l)] * (1 if l > 0 else -1)
+    elif op == "edit_literal":  # overwrite one literal of one clause
+        ci, li, lit = edit[1], edit[2], edit[3]
+        if cl and cl[ci % len(cl)]:
+            c = cl[ci % len(cl)]
+            c[li % len(c)] = lit
+    elif op == "replace_all":  # same outer list object, completely different formula
+        cl[:] = [list(c) for c in edit[1]]
+    else:
+        raise AssertionError(f"checker defect: unknown edit {op}")
+
+
+def evaluate_history(case):
+    """one process, one clause-list object and one assumption-list object reused over a sequence of calls with in-place
+    edits in between; every answer judged against the oracle for the input as it is at that call.
+    returns (violations, info); info['fresh'] lists (input snapshot, options, digest) of every call for the comparison with
+    a fresh process."""
+    h = case["history"]
+    cl = [list(c) for c in h["clauses0"]]
+    assum = list(h.get("assumptions0") or [])
+    viol = []
+    fresh = []
+    last_model = None
+    info = {"iterations": 0, "n_solutions": 0, "calls": 0}
+    for si, step in enumerate(h["steps"]):
+        apply_edit(cl, assum, step.get("edit", ["none"]), last_model)
+        opts = dict(step.get("opts") or {})
+        snap = [list(c) for c in cl]
+        asnap = list(assum)
+        res, v = call_solver(cl, assum, solver_kw(opts), case.get("timeout_s", 20), copy=False)
+        info["calls"] += 1
+        tag = f"[history step {si}: {step.get('edit', ['none'])[0]}] "
+        if res is None:
+            viol += [(o, tag + d) for o, d in v]
+            break
+        # the input as it is at that call: the snapshot taken just before it
+        v2, inf = judge(snap, asnap, {"solution_limit": opts.get("solution_limit"),
+                                      "budget_generous": step.get("generous", True), "small": True}, res)
+        viol += [(o, tag + d) for o, d in v + v2]
+        info["iterations"] = max(info["iterations"], inf.get("iterations", 0))
+        info["n_solutions"] = max(info["n_solutions"], inf.get("n_solutions", 0))
+        last_model = res.solution if isinstance(res.solution, dict) else None
+        fresh.append({"clauses": snap, "assumptions": asnap, "opts": opts, "digest": _res_digest(res), "step": si})
+        if viol:
+            break
+    info["fresh"] = fresh
+    info["status"] = "history"
+    return viol, info
+
+
+def fresh_call(item):
+    """one call in a process without call history: a child forked for this call alone from a pool worker that never calls
+    the solver itself (module state = import-time state), or a newly started interpreter (fresh_subprocess)"""
+    use_repo()
+    res, v = call_solver([list(c) for c in item["clauses"]], list(item["assumptions"]), solver_kw(item["opts"]), 60)
+    return _res_digest(res) if res is not None else ["no-result", repr(v), None]
+
+
+FRESH_SCRIPT = r"""
+import json, sys
+sys.path.insert(0, sys.argv[1]); sys.path.insert(0, sys.argv[2])
+item = json.load(sys.stdin)
+from checks import sat_common
+print(json.dumps(sat_common.fresh_call(item)))
+"""
+
+
+def fresh_subprocess(item):
+    """a really fresh interpreter (sampled: costs an import of the whole package per call)"""
+    import json
+    import os
+    import subprocess
+    import sys
+    from vf import core
+    out = subprocess.run([sys.executable, "-c", FRESH_SCRIPT, core.REPO, core.VERIF], input=json.dumps(item), text=True,
+                         capture_output=True, timeout=300, env=dict(os.environ, VERIF_REPO=core.REPO))
+    if out.returncode != 0:
+        raise AssertionError("checker defect: fresh subprocess failed: " + out.stderr[-400:])
+    return json.loads(out.stdout.strip().splitlines()[-1])
+
+
+def fresh_call_forked(item):
+    """fork a child for this one call (the pool worker itself never calls the solver, so the child has no call history)
+    and read its answer from a pipe"""
+    import json
+    import os
+    use_repo()
+    import solvor.sat  # noqa: F401  imported (not called) in the worker, so that the child does not pay for the import
+    r, w = os.pipe()
+    pid = os.fork()
+    if pid == 0:
+        code = 0
+        try:
+            os.close(r)
+            with os.fdopen(w, "w") as f:
+                f.write(json.dumps(fresh_call(item)))
+        except BaseException:  # noqa
+            code = 1
+        finally:
+            os._exit(code)
+    os.close(w)
+    with os.fdopen(r) as f:
+        data = f.read()
+    os.waitpid(pid, 0)
+    if not data:
+        raise AssertionError("checker defect: forked fresh call produced no answer")
+    return json.loads(data)
+
+
+def compare_fresh(items, n_subprocess):
+    """items: list of (history case, fresh item). returns list of (case, obligation, detail)"""
+    import json
+    from vf.pool import pmap
+    if not items:
+        return []
+    got = pmap(fresh_call_forked, [it for _, it in items], chunksize=8)
+    step = max(1, len(items) // max(1, n_subprocess))
+    sub_idx = list(range(0, len(items), step))[:n_subprocess]
+    sub = pmap(fresh_subprocess, [items[i][1] for i in sub_idx], chunksize=1)
+    out = []
+    for (case, it), g in list(zip(items, got)) + [(items[i], g) for i, g in zip(sub_idx, sub)]:
+        want = json.loads(json.dumps(it["digest"]))
+        g = json.loads(json.dumps(g))
+        if g != want:
+            ob = ("C02/solve_sat/history:same-status-as-fresh-process" if g[0] != want[0]
+                  else "C01/solve_sat/history:same-models-as-fresh-process")
+            out.append((case, ob, f"step {it['step']}: in-process answer {_short(want, 200)} differs from the answer of a fresh "
+                                  f"process {_short(g, 200)} on the same input {_short(it['clauses'], 200)} assumptions {it['assumptions']} options {it['opts']}"))
+    return out
+
+
+def history_cases(rng, n_seq, big=False):
+    """sequences of edits + calls on one reused clause list / assumption list"""
+    cases = []
+    for _ in range(n_seq):
+        n = rng.randint(3, 9) if not big else rng.randint(10, 13)
+        f = random_cnf(rng, n, max(2, int(n * rng.uniform(1.5, 4.0))), lens=rng.choice([(2, 3), (3,), (1, 2, 3, 3)]), dup=0.02, taut=0.02)
+        kind = rng.choice(["enumerate", "options", "edits", "repeat", "replace"])
+        steps = []
+        lf = rng.choice([1, 2, 100])
+        if kind == "enumerate":  # user-side enumeration: block the last model in place until INFEASIBLE
+            steps.append({"edit": ["none"], "opts": {"luby_factor": lf}})
+            for _ in range(rng.randint(3, 40 if not big else 80)):
+                steps.append({"edit": ["block_last_model"], "opts": {"luby_factor": lf}})
+            steps.append({"edit": ["pop_clause"], "opts": {"luby_factor": lf}})
+            steps.append({"edit": ["none"], "opts": {"luby_factor": lf, "solution_limit": 4}})
+        elif kind == "options":  # same objects, changing options / assumptions (starved budgets in between)
+            for _ in range(rng.randint(4, 10)):
+                r = rng.random()
+                if r < 0.3:
+                    a = [rng.choice([1, -1]) * rng.randint(1, n) for _ in range(rng.randint(0, 2))]
+                    steps.append({"edit": ["set_assumptions", a], "opts": {"luby_factor": lf, "solution_limit": rng.choice([1, 1, 3, 50])}})
+                elif r < 0.5:
+                    steps.append({"edit": ["none"], "opts": {"luby_factor": 1, "max_conflicts": rng.choice([0, 1, 2]),
+                                                              "max_restarts": rng.choice([0, 1, 10000])}, "generous": False})
+                else:
+                    steps.append({"edit": ["none"], "opts": {"luby_factor": rng.choice([1, 2, 100]),
+                                                              "solution_limit": rng.choice([1, 2, 5, 100])}})
+        elif kind == "edits":  # additions, removals, relabellings, literal overwrites
+            steps.append({"edit": ["none"], "opts": {"luby_factor": lf}})
+            for _ in range(rng.randint(4, 12)):
+                r = rng.random()
+                if r < 0.3:
+                    k = rng.choice((1, 1, 2, 3))
+                    c = [rng.choice([1, -1]) * rng.randint(1, n) for _ in range(k)]
+                    e = ["append_clause", c]
+                elif r < 0.4:
+                    e = ["pop_clause"]
+                elif r < 0.55:
+                    e = ["flip_var", rng.randint(1, n)]
+                elif r < 0.7:
+                    a, b = rng.sample(range(1, n + 1), 2)
+                    e = ["swap_vars", a, b]
+                elif r < 0.85:
+                    e = ["edit_literal", rng.randrange(100), rng.randrange(3), rng.choice([1, -1]) * rng.randint(1, n)]
+                else:
+                    e = ["reverse"]
+                steps.append({"edit": e, "opts": {"luby_factor": lf, "solution_limit": rng.choice([1, 1, 1, 6])}})
+        elif kind == "repeat":  # the same call again and again
+            o = {"luby_factor": lf, "solution_limit": rng.choice([1, 3, 100])}
+            steps = [{"edit": ["none"], "opts": dict(o)} for _ in range(3)]
+        else:  # the same outer list refilled with a different formula over the same variables, and back
+            g = random_cnf(rng, n, max(2, int(n * rng.uniform(2.0, 5.0))), lens=(1, 2, 3), dup=0, taut=0)
+            o = {"luby_factor": lf, "solution_limit": rng.choice([1, 3])}
+            steps = [{"edit": ["none"], "opts": dict(o)}, {"edit": ["replace_all", g], "opts": dict(o)},
+                     {"edit": ["replace_all", f], "opts": dict(o)}, {"edit": ["replace_all", g], "opts": dict(o)}]
+        a0 = [rng.choice([1, -1]) * rng.randint(1, n)] if rng.random() < 0.25 else []
+        cases.append({"history": {"clauses0": f, "assumptions0": a0, "steps": steps, "kind": kind},
+                      "family": "history-" + kind, "timeout_s": 20})
+    return cases
+
+
+# ------------------------------------------------------------------ round 2: case lists
+LADDER = (10, 12, 33, 65, 129, 140, 260, 520, 600, 1000, 1500, 2500)
+
+
+def ladder_cases(seed, quick):
+    """size ladder + long runs + big enumerations. Each case: recipe, options, family, cost estimate (for scheduling)"""
+    rng = random.Random(f"ladder-{seed}")
+    out = []
+
+    def add(family, gen, cost, **kw):
+        c = {"gen": gen, "assumptions": [], "solution_limit": 1, "luby_factor": 100, "family": family, "small": False,
+             "timeout_s": 900, "z3_timeout_ms": 30000, "cost": cost}
+        c.update(kw)
+        out.append(c)
+
+    option_sets = [{}, {"luby_factor": 1}, {"solution_limit": 3}, {"assume_from_witness": 2}]
+    sizes = [s for s in LADDER if (s <= 1000 or not quick)]
+    # implication chains and wide clauses: every numbering order, both polarities, satisfiable + unsatisfiable sibling
+    for K in sizes:
+        for order in ("head", "tail", "gadget", "gadget-tail"):
+            for pol in (("pos",) if quick and order != "head" else ("pos", "neg", "alt")):
+                for oi, o in enumerate(option_sets):
+                    if quick and oi and order != "head":
+                        continue
+                    add("ladder-chain", ["chain", {"K": K, "order": order, "pol": pol}], K / 1e4, **o)
+                add("ladder-chain-unsat", ["chain", {"K": K, "order": order, "pol": pol, "unsat": True}], K / 1e4)
+        taps = [round(rng.uniform(0.05, 1.0), 3) for _ in range(3)]
+        add("ladder-chain", ["chain", {"K": K, "order": "head", "pol": "pos", "taps": taps}], K / 1e4)
+        for r in range(2 if quick else 8):
+            add("ladder-chain-renamed", ["chain", {"K": K, "order": "head", "pol": "pos", "taps": taps}], K / 1e4, rename=r,
+                **rng.choice(option_sets))
+    for N in sizes:
+        if N < 12:
+            continue
+        for order in ("asc", "desc", "aux-first", "last-two-first"):
+            for pol in (("pos",) if quick and order != "asc" else ("pos", "neg")):
+                for oi, o in enumerate(option_sets):
+                    if quick and oi and (order != "asc" or N > 600):
+                        continue
+                    add("ladder-wide", ["wide", {"N": N, "order": order, "pol": pol}], (N / 1000) ** 2, **o)
+            if N <= 600 or not quick:
+                add("ladder-wide-unsat", ["wide", {"N": N, "order": order, "pol": "pos", "unsat": True}], (N / 1000) ** 2)
+        for depth in (2, 5):
+            if N - depth >= 3:
+                add("ladder-wide", ["wide", {"N": N, "order": "asc", "pol": "pos", "depth": depth}], (N / 1000) ** 2 * depth)
+        for r in range(2 if quick else 6):
+            add("ladder-wide-random", ["wide_random", {"N": N, "seed": r}], (N / 1000) ** 2 * 2, **rng.choice(option_sets[:3]))
+            add("ladder-wide-renamed", ["wide", {"N": N, "order": "asc", "pol": "pos"}], (N / 1000) ** 2, rename=r)
+    # planted random formulas of growing size (easy ratios), 2-SAT, xor chains, ladder-encoded CSPs
+    for n in sizes:
+        for r in range(1 if quick else 4):
+            add("ladder-planted-3sat", ["planted_ksat", {"n": n, "ratio": rng.choice([2.5, 3.0, 3.3]), "seed": r}], n / 2e3,
+                max_conflicts=20000, budget_generous=False, **rng.choice(option_sets))
+            add("ladder-planted-2sat", ["planted_2sat", {"n": n, "ratio": rng.choice([0.9, 1.1, 1.4, 2.0]), "seed": r}], n / 1e4,
+                **rng.choice(option_sets))
+            if n <= 600:
+                add("ladder-xor-chain", ["xor_chain", {"n": n, "seed": r}], n / 500, max_conflicts=20000, budget_generous=False,
+                    **rng.choice(option_sets[:3]))
+        if n <= 20:
+            add("ladder-xor-chain-unsat", ["xor_chain", {"n": n, "seed": 0, "unsat": True}], 0.5, max_conflicts=20000,
+                budget_generous=False)
+    for P, N in ([(3, 33), (4, 65), (3, 140), (3, 260)] if quick else [(3, 33), (4, 65), (5, 129), (3, 140), (4, 260), (3, 520), (3, 600)]):
+        for r in range(2 if quick else 4):
+            add("ladder-csp", ["ladder_csp", {"P": P, "N": N, "seed": r}], P * N * N / 2e5, max_conflicts=20000, budget_generous=False,
+                **rng.choice(option_sets[:3]))
+    for J, H in ([(3, 33), (3, 129), (4, 260), (4, 600)] if quick else [(3, 33), (3, 129), (4, 260), (4, 600), (5, 600), (6, 1000), (8, 600)]):
+        for r in range(2 if quick else 6):
+            add("ladder-order-sched", ["order_sched", {"J": J, "H": H, "seed": r}], J * J * H / 4e4, max_conflicts=20000,
+                budget_generous=False, **({} if r % 2 == 0 else {"rename": r}))
+    # long runs: thousands of conflicts inside one call (hidden-model 3-SAT near the threshold; unplanted with z3 on demand)
+    for i in range(48 if quick else 320):
+        n = rng.choice([180, 200, 220, 250, 250, 300])
+        ratio = rng.choice([4.0, 4.1, 4.2])
+        o = rng.choice([{}, {}, {"solution_limit": 2}, {"solution_limit": 2, "assume_from_witness": 1}, {"luby_factor": rng.choice([1, 10, 1000])}])
+        add("long-hidden-3sat", ["planted_ksat", {"n": n, "ratio": ratio, "seed": i}], 4.0,
+            max_conflicts=14000 if quick else 40000, budget_generous=False, **o)
+    for i in range(0 if quick else 48):
+        n = rng.choice([150, 180, 200])
+        add("long-random-3sat", ["random_ksat", {"n": n, "ratio": rng.choice([4.0, 4.1, 4.2]), "seed": i}], 6.0,
+            max_conflicts=40000, budget_generous=False, z3_timeout_ms=60000)
+    # enumerations by the thousand: blocking clauses become the majority of the clause database, reduce_db runs at a restart
+    for k, lim in ([(11, 5000), (12, 3000), (12, 5000)] if quick else [(11, 5000), (12, 3000), (12, 5000), (13, 5000), (13, 9000), (14, 20000)]):
+        for lf in (1, 100):
+            add("enumerate-free", ["free_vars", {"k": k}], lim / 1500, solution_limit=lim, luby_factor=lf, n_models=2 ** k,
+                budget_generous=lim <= 5000)
+    for r in range(4 if quick else 24):
+        k = rng.choice([12, 13, 14])
+        extra = rng.randint(2, 8)
+        f, _, _ = free_vars(k, extra, r)
+        add("enumerate-small-formula", ["free_vars", {"k": k, "extra": extra, "seed": r}], 3.0, solution_limit=rng.choice([2500, 3000, 6000]),
+            luby_factor=rng.choice([1, 100]), n_models=count_models(f, k))
+    for r in range(4 if quick else 24):
+        n = rng.choice([30, 40, 60, 100])
+        add("enumerate-loose-3sat", ["loose_ksat", {"n": n, "ratio": rng.choice([1.5, 2.0, 2.5]), "seed": r}], 3.0,
+            solution_limit=rng.choice([2500, 3000]) if quick else rng.choice([2500, 4000, 8000]), luby_factor=rng.choice([1, 100]),
+            max_conflicts=10 ** 6)
+    return out
+
+
+def budget_ladder_cases(seed, quick):
+    """every conflict budget 0..K and restart budget 0..3 on formulas that need tens to hundreds of conflicts: the budget
+    checks are crossed at every possible point (any status allowed; models must be models; INFEASIBLE only if unsat)"""
+    rng = random.Random(f"budget-{seed}")
+    out = []
+    forms = [("php4", pigeonhole(5, 4)), ("cumulative18", cumulative_unsat()), ("php-sat4", pigeonhole(4, 4))]
+    for i in range(3 if quick else 12):
+        n = rng.randint(14, 30)
+        forms.append((f"rand{n}", random_cnf(rng, n, int(n * 4.2), lens=(3,), dup=0, taut=0)))
+    for name, f in forms:
+        for mc in (range(0, 34, 3) if quick else range(0, 80)):
+            for mr in ((0, 2, 10000) if quick else (0, 1, 2, 3, 10000)):
+                out.append({"clauses": f, "assumptions": [], "solution_limit": rng.choice([1, 1, 4]), "luby_factor": rng.choice([1, 1, 2, 100]),
+                            "max_conflicts": mc, "max_restarts": mr, "budget_generous": False, "family": "budget-ladder",
+                            "timeout_s": 60, "small": False})
+    return out
+
+
 def build_cases(seed: int, quick: bool):
     rng = random.Random(seed)
     cases = []
@@ -353,32 +1128,99 @@ def build_cases(seed: int, quick: bool):
     return cases
 
 
+def case_key(c):
+    if "history" in c:
+        return repr(("history", c["history"]["clauses0"], c["history"].get("assumptions0"), c["history"]["steps"]))
+    form = (c["gen"], c.get("rename"), c.get("assume_from_witness")) if "gen" in c else c["clauses"]
+    return repr((form, c.get("assumptions"), c.get("solution_limit"), c.get("luby_factor"), c.get("max_conflicts"), c.get("max_restarts")))
+
+
+def case_size(c):
+    if "history" in c:
+        return sum(len(x) for x in c["history"]["clauses0"]) + len(c["history"]["steps"])
+    return sum(len(x) for x in c["clauses"]) if "clauses" in c else 10 ** 9
+
+
+def replay_case(rec):
+    """re-run the case of a violation record on the current tree; returns (violations, info)"""
+    use_repo()
+    case = rec["case"]
+    v, info = evaluate(case, case.get("timeout_s", 6))
+    if "history" in case and not v:
+        for _, ob, detail in compare_fresh([(case, it) for it in info.get("fresh", ())], 2):
+            v.append((ob, detail))
+    info.pop("fresh", None)
+    return v, info
+
+
 def run_property(ctx, prefix):
     """run all cases, report the violations whose obligation starts with `prefix` (C01 or C02)"""
     from vf.pool import pmap
+    hist = history_cases(random.Random(f"history-{ctx.seed}"), 240 if ctx.quick else 6000) + \
+        history_cases(random.Random(f"history-big-{ctx.seed}"), 24 if ctx.quick else 400, big=True)
+    # history mode runs first, while this process is still small (the comparison forks one child per call)
+    hist_results = pmap(eval_chunk, [hist[i:i + 20] for i in range(0, len(hist), 20)], chunksize=1)
+    fresh_items = [(c, it) for ch in hist_results for c, _, info in ch for it in info.pop("fresh", ())]
+    sel = fresh_items if not ctx.quick else fresh_items[::2]
+    fresh_viol = compare_fresh(sel, 8 if ctx.quick else 64)
+    del fresh_items
     cases = build_cases(ctx.seed, ctx.quick)
-    chunks = [cases[i:i + 40] for i in range(0, len(cases), 40)]
-    results = pmap(eval_chunk, chunks, chunksize=1)
+    big = ladder_cases(ctx.seed, ctx.quick)
+    budget = budget_ladder_cases(ctx.seed, ctx.quick)
+    small = cases + budget
+    # expensive cases first, one per task; cheap ones in chunks of 40
+    big.sort(key=lambda c: -c.get("cost", 0))
+    heavy = [c for c in big if c.get("cost", 0) >= 0.5]
+    light = [c for c in big if c.get("cost", 0) < 0.5]
+    chunks = [[c] for c in heavy] + [light[i:i + 8] for i in range(0, len(light), 8)] + [small[i:i + 40] for i in range(0, len(small), 40)]
+    results = hist_results + pmap(eval_chunk, chunks, chunksize=1)
     n = 0
     nontriv = set()
     fam = {}
     samples = []
+    undecided = 0
+    reported = {}
+    found = []
     for ch in results:
         for c, viol, info in ch:
-            n += 1
+            n += info.get("calls", 1)
             fam[c.get("family", "?")] = fam.get(c.get("family", "?"), 0) + 1
+            if info.get("oracle_undecided"):
+                undecided += 1
             # non-trivial: the run made at least one decision and the formula has > 1 clause, or enumerated > 1 model
-            if (info.get("iterations", 0) >= 1 and len(c["clauses"]) > 1) or info.get("n_solutions", 0) > 1:
-                nontriv.add(repr((c["clauses"], c.get("assumptions"), c.get("solution_limit"), c.get("luby_factor"),
-                                  c.get("max_conflicts"), c.get("max_restarts"))))
+            if info.get("iterations", 0) >= 1 or info.get("n_solutions", 0) > 1:
+                if "gen" in c or "history" in c or len(c["clauses"]) > 1 or info.get("n_solutions", 0) > 1:
+                    nontriv.add(case_key(c))
             if len(samples) < 6 and c.get("family") in ("random", "dup-taut", "tiny") and n % 97 == 0:
                 samples.append({k: c[k] for k in ("clauses", "assumptions", "solution_limit", "luby_factor") if k in c})
+            if len(samples) < 9 and "gen" in c and n % 53 == 0:
+                samples.append({k: c[k] for k in ("gen", "rename", "assume_from_witness", "solution_limit", "luby_factor", "max_conflicts") if k in c})
             for ob, detail in viol:
                 if ob.startswith(prefix):
-                    case = {k: v for k, v in c.items() if k not in ("family",)}
-                    ctx.violation(ob, case, detail)
+                    found.append((case_size(c), len(found), ob, c, detail))
+    # at most 3 reports per (obligation, family), the smallest inputs first
+    found.sort(key=lambda t: t[:2])
+    for _, _, ob, c, detail in found:
+        key = (ob, c.get("family"))
+        reported[key] = reported.get(key, 0) + 1
+        if reported[key] > 3:
+            continue
+        ctx.violation(ob, {k: v for k, v in c.items() if k not in ("family", "cost")}, detail)
+    # history mode, second half: every answer given inside a call sequence against the answer of a process without history
+    for c, ob, detail in fresh_viol:
+        if ob.startswith(prefix):
+            ctx.violation(ob, {k: v for k, v in c.items() if k not in ("family", "cost")}, detail)
+    n += len(sel)
     ctx.count(n, nontriv, samples or [cases[0]])
     ctx.scope("solve_sat cases by family", **fam)
+    ctx.scope("size ladder (planted witness / certified-unsat siblings)", sizes=list(LADDER if not ctx.quick else [s for s in LADDER if s <= 1000]),
+              families=sorted({c["family"] for c in big}), cases=len(big),
+              oracle="planted model checked by direct evaluation; every returned assignment evaluated clause by clause; "
+                     "unsat siblings and INFEASIBLE claims on unplanted formulas certified by z3 (time-limited)",
+              oracle_gave_up=undecided)
+    ctx.scope("history mode", sequences=len(hist), calls=sum(len(c["history"]["steps"]) for c in hist),
+              compared_with_fresh_process=len(sel), kinds=["enumerate", "options", "edits", "repeat", "replace"])
+    ctx.scope("budget ladder", cases=len(budget))
     ctx.notes["exhaustive_note"] = ("thorough tier enumerates every CNF over <=3 variables with <=3 clauses of <=3 literals "
                                     "x assumptions x solution_limit x luby_factor; quick runs a seeded slice")
     ctx.exhaustive = not ctx.quick
